@@ -513,6 +513,12 @@ func vfScenarios(tier string, faults bool) []*vfRouteScenario {
 	out[len(out)-1].WMAdvance = 7
 	add("1x1-idle-source", 1, 1, [][]vfBatch{{}}, 1, 1)
 	out[len(out)-1].WMAdvance = 7
+	// targets that acknowledge per priority lane (the high-priority lane is ahead of the flat watermark)
+	add("1x2-lane-acks", 1, 2, [][]vfBatch{{
+		{IDs: []int64{10, 11}, Tgt: []int{1, 2}, High: 12},
+		{IDs: []int64{12}, Tgt: []int{1}, High: 13},
+	}}, 0, 0)
+	out[len(out)-1].LaneAcks = true
 	// two proxy instances: the source shard and target shard 1 are connected to instance n1, target shard 2 to n2, so
 	// tasks for T2 and its acknowledgements cross the intra-proxy streams
 	add("1x2-two-proxies", 1, 2, [][]vfBatch{{
